@@ -323,6 +323,9 @@ def compare(r0, r1, expect, atol=1e-8, tol_m=1e-10, gas=False, sections0=None, s
     # |dT_out/dm| <= (T_in - T_ext)/(e |m|) <= 40 K / |m|: an admissible flow error tol_m moves temperatures by
     # up to 40 tol_m / min|m| (and mixing hands it on downstream)
     atol_t = atol + 40.0 * tol_m / min_flow(r0, r1)
+    # a stalled branch (flow at noise level, sign undetermined - see stalled_flow) feeds |m| cp dT of energy into a node
+    # whose throughput is at least min|m|: mixing temperatures move by up to dT_max * stalled / min|m|, dT_max <= 100 K
+    atol_t += 100.0 * stalled_flow(r0, r1) / min_flow(r0, r1)
     rev = expect.get("reversed", {})
     c = expect.get("p_shift", 0.0)
     skip = expect.get("skip_tables", set())
